@@ -217,9 +217,9 @@ PropSpec {
     quick_runs: 400_000,
     thorough_runs: 10_000_000,
     default_seed: 1313,
-    rule: "degenerate simulation (one SyncTestSession, no network/clock): players 1-4, window 1-12, check distance 0..window-1 (valid) or >= window / sparse (must be rejected), delay 0-6, 30-400 frames; half of the valid runs inject a nondeterministic game step at a seeded frame (check distance >= 2; either every simulation of the frame differs, or only its k-th re-simulation does) and must be reported within check_distance+2 frames naming the first affected frame; the others must never report; non-trivial = valid configuration that simulated >= 20 frames; distinct = distinct (request trace, seed) hash; in 30 % of the runs the game keeps its own snapshots and saves None data with a checksum; checksum layouts as in C01",
+    rule: "degenerate simulation (one SyncTestSession, no network/clock): players 1-4, window 1-12, check distance 0..window-1 (valid) or >= window / sparse (must be rejected), delay 0-6, 30-400 frames; half of the valid runs inject a nondeterministic game step at a seeded frame (check distance >= 2; either every simulation of the frame differs, or only its k-th re-simulation does) and must be reported within check_distance+2 frames naming the first affected frame; the others must never report; non-trivial = valid configuration that simulated >= 20 frames; distinct = distinct (request trace, seed) hash; in 30 % of the runs the game keeps its own snapshots and saves None data with a checksum; checksum layouts as in C01; in 35 % of the runs the inputs are submitted in seeded order with throw-away submissions first (the last one counts) and, in deterministic games, every seventh tick first calls advance_frame with one input missing (InvalidRequest, nothing may change) and then submits afresh",
     nontrivial: nt_c13,
-    required_probes: &["synctest_runs_with_detection", "synctest_invalid_configs_tried", "rollbacks"],
+    required_probes: &["synctest_runs_with_detection", "synctest_invalid_configs_tried", "rollbacks", "synctest_calls_with_missing_input", "throwaway_submissions"],
     assumptions: &["the injected fault is a game step whose result differs between simulations of the same frame (fresh counter mixed into the state)", "no network, no clock: the technique degenerates to seeded workload + fault + oracle + replay"],
     twin: None,
 },
